@@ -112,6 +112,13 @@ func runC08(rng *rand.Rand, ncases int, emit emitter) error {
 	}
 	defer up.Shutdown()
 	up.Behave = c08behave
+	// endpoint "ea": a local HTTP service behind the piko agent's reverse proxy
+	viaAgent, err := psim.ListenViaAgent(context.Background(), b.UpstreamAddr(), "ea", "u-agent", proxyTimeout)
+	if err != nil {
+		return err
+	}
+	defer viaAgent.Shutdown()
+	viaAgent.Behave = c08behave
 	gone, err := psim.Listen(context.Background(), b.UpstreamAddr(), "gone", "u-gone", "", "")
 	if err != nil {
 		return err
@@ -132,6 +139,7 @@ func runC08(rng *rand.Rand, ncases int, emit emitter) error {
 		path := c08paths[rng.Intn(len(c08paths))]
 		q := c08queries[rng.Intn(len(c08queries))]
 		mode := []string{"host", "header"}[rng.Intn(2)]
+		ep := []string{"e", "ea"}[rng.Intn(2)]
 		size := []int{0, 1, 100, 5000, 70000, 1 << 20}[rng.Intn(6)]
 		if method == "GET" || method == "HEAD" || method == "OPTIONS" || method == "DELETE" {
 			size = 0
@@ -146,9 +154,9 @@ func runC08(rng *rand.Rand, ncases int, emit emitter) error {
 		if err != nil {
 			continue
 		}
-		host := "e.piko.example.com:8000"
+		host := ep + ".piko.example.com:8000"
 		if mode == "header" {
-			req.Header.Set("x-piko-endpoint", "e")
+			req.Header.Set("x-piko-endpoint", ep)
 			host = "other.example.org"
 		}
 		req.Host = host
@@ -175,7 +183,7 @@ func runC08(rng *rand.Rand, ncases int, emit emitter) error {
 		if rng.Intn(3) == 0 && rsize > 0 {
 			req.Header.Set("X-Resp-Chunked", "1")
 		}
-		s := &Step{Op: "Http", Case: "transparent", Route: route, Mode: mode, WantSt: status}
+		s := &Step{Op: "Http", Case: "transparent", Route: route, Mode: mode, WantSt: status, Target: ep}
 		s.Note = method + " " + path + "?" + q
 		t0 := time.Now()
 		resp, err := client.Do(req)
@@ -244,6 +252,13 @@ func runC08(rng *rand.Rand, ncases int, emit emitter) error {
 		// any other protocol upgrade is an ordinary request as far as the timeout goes
 		{name: "slow-other-upgrade", ep: "e", hdr: map[string]string{"X-Behave": "slow", "Upgrade": "h2c", "Connection": "Upgrade"}},
 	}
+	for _, f := range fcs {
+		if f.ep == "e" {
+			g := f
+			g.ep = "ea" // the same failure behind the agent's reverse proxy (which has the same timeout)
+			fcs = append(fcs, g)
+		}
+	}
 	for _, route := range []string{"local", "forwarded"} {
 		for _, f := range fcs {
 			for rep := 0; rep < 2; rep++ {
@@ -256,7 +271,7 @@ func runC08(rng *rand.Rand, ncases int, emit emitter) error {
 				for k, v := range f.hdr {
 					req.Header.Set(k, v)
 				}
-				s := &Step{Op: "Http", Case: f.name, Route: route}
+				s := &Step{Op: "Http", Case: f.name, Route: route, Target: f.ep}
 				t0 := time.Now()
 				resp, err := client.Do(req)
 				s.TookMs = int(time.Since(t0) / time.Millisecond)
